@@ -61,6 +61,13 @@ Theorem C02_columns_validated :
 Proof. intros m He Hb Hv. exact (validated_columns m (conj He (conj Hb Hv))). Qed.
 Print Assumptions C02_columns_validated.
 
+(* the column ids of the polyhedron are pairwise distinct for EVERY model, validated or not, asserted or not: the columns
+   come out of a dictionary keyed by id (Plog.dict_by_id, the model of dict(zip(ids, flatten))) *)
+Theorem C02_columns_distinct :
+  forall (active : bool) (m : prop), NoDup (map fst (columns active m)).
+Proof. exact columns_distinct. Qed.
+Print Assumptions C02_columns_distinct.
+
 (* so soundness holds of the polyhedron exactly as handed out, with no hypothesis about columns left:
    any integer vector x within the column bounds that satisfies every row of the matrix makes a
    validated solver-safe model true at the leaf values x assigns *)
